@@ -249,6 +249,7 @@ def run(prog, chk):
     from . import c13
     c13.client_write_table(prog, chk, "C08.w")
     window_trims(prog, chk, "C08.t")
+    source_window_only(prog, chk, "C08.s", fs)
 
 
 def _branch_tag(f, w):
@@ -332,3 +333,28 @@ def window_trims(prog, chk, rid):
                     "takes part of it" % (name, bad[1], bad[0], bad[2]), evals=n_ev)
         else:
             chk.ok(rid, f, "%s: remainder = max(0, n - k) at the right offset for %d (n, k) pairs" % (name, n_ev), where, "evaluation of the window arithmetic", evals=n_ev)
+
+
+def source_window_only(prog, chk, rid, fs):
+    """the bytes of a Buffer are [bufferStart, bufferEnd); `buffer` is where its allocation begins - after removeFront() (or a prepend
+    that used the head room) the two differ, and for an attached Buffer `buffer` is null.  A member that is handed another Buffer as a
+    source has to read that Buffer's window."""
+    chk.rule(rid, "WHO: a Buffer member with a `const Buffer&` parameter reads that parameter's bytes through bufferStart / bufferEnd (or its "
+                  "accessors), never through its allocation pointer `buffer`", floor=4)
+    n = 0
+    for f in fs:
+        ps = [p for p in f.params if re.sub(r"\s+", " ", p["t"]) in ("const Buffer &",)]
+        if not ps or not f.blocks:
+            continue
+        n += 1
+        names = [p["n"] for p in ps]
+        bad = [i for i, nd in enumerate(f.nodes) if nd["k"] == "MemberExpr" and nd.get("m") == "buffer" and nd["c"] and
+               q.no_casts(f.r(nd["c"][0])) in names and f.node_pos(i) is not None]
+        if bad:
+            chk.bad(rid, f, "source-read-from-allocation-start:" + q.no_casts(f.r(bad[0])), f.where(bad[0]),
+                    "`%s` is where the source's allocation begins, not where its data begins: once bytes were removed from the front of the "
+                    "source (or it is attached: null) %s takes bytes the source no longer holds" % (q.no_casts(f.r(bad[0])), f.name), evals=len(bad))
+        else:
+            chk.ok(rid, f, "%s reads its source through the data window" % f.short, "%s:%s" % (f.file, f.line), "no read of %s.buffer" % names[0], evals=1)
+    if n < 4:
+        raise AnalysisBroken("C08.s: only %d Buffer members with a `const Buffer&` parameter found" % n)
